@@ -155,7 +155,19 @@ func (s *VerifSent) Body() *RespValue { return s.req.body }
 // Reply delivers a backend reply through the real client.handleResp.
 func (s *VerifSent) Reply(v *RespValue) { s.c.handleResp(s.req, v) }
 
-// Stat reads a counter of the processor's stats scope by its flattened name suffix.
+// Fail loses the request the way a broken backend connection does: through the real client.drainRequests.
+func (s *VerifSent) Fail() {
+	s.c.pendingReqs <- s.req
+	s.c.drainRequests()
+}
+
+// Quit tells the upstream to exit (what redisProc.Stop starts with); the rig answers nothing afterwards.
+func (r *VerifRig) Quit() { close(r.p.u.quit) }
+
+// ScopeName is the name of the processor's statistics scope in the process-wide store.
+func (r *VerifRig) ScopeName() string { return r.p.stats.Scope.Name() }
+
+// Stats is the processor's statistics handle.
 func (r *VerifRig) Stats() *proc.Stats { return r.p.stats }
 
 // Hosts is upstream.Hosts().
